@@ -172,7 +172,7 @@ type functionBuilder struct {
 	scopes                 []map[string]int8
 	scopeShifts            []runtime.StackShift
 	complexBinaryOpIndexes map[ast.OperatorType]int8 // indexes of complex binary op. functions.
-	complexUnaryOpIndex    int8                      // index of complex negation function.
+	complexUnaryOpIndex    int                       // index of complex negation function, -1 if it has not been added yet.
 
 	// text refers to the latest emitted Text instruction with its text to be flushed into the function.
 	text struct {
@@ -607,11 +607,11 @@ func (fb *functionBuilder) allocRegister(typ registerType, reg int8) {
 func (fb *functionBuilder) complexOperationIndex(op ast.OperatorType, unary bool) int8 {
 	if unary {
 		if fb.complexUnaryOpIndex != -1 {
-			return fb.complexUnaryOpIndex
+			return int8(fb.complexUnaryOpIndex)
 		}
 		fn := newNativeFunction("scriggo.complex", "neg", negComplex)
 		index := fb.addNativeFunction(fn)
-		fb.complexUnaryOpIndex = index
+		fb.complexUnaryOpIndex = int(uint8(index))
 		return index
 	}
 	if index, ok := fb.complexBinaryOpIndexes[op]; ok {
